@@ -50,10 +50,17 @@ def run(ctx):
                         comps.append(tuple(B.peel(x) for x in s.a[1]))
                 flat = [c for tup in comps for c in tup]
                 has_hash = any(c.op == "call" and B.cname(c) == "HashToPoint::hash_to_point" and [B.peel(x).a[1] if B.peel(x).op == "param" else None for x in c.a[1]] == ["msg", "dst"] for c in flat)
+                def _is(c, name):
+                    if c.op == "call" and B.cname(c) == "Neg::neg":
+                        c = B.peel(c.a[1][0])
+                    return c.op == "param" and c.a[1] == name
                 has_pk = any(c.op == "param" and c.a[1] == "pk" for c in flat)
-                has_sig = any(c.op == "param" and c.a[1] == "sig" for c in flat)
+                has_sig = any(_is(c, "sig") for c in flat)
+                has_gen = any((c.op == "call" and B.cname(c) == "Group::generator") or (c.op == "call" and B.cname(c) == "Neg::neg" and B.peel(c.a[1][0]).op == "call" and B.cname(B.peel(c.a[1][0])) == "Group::generator") for c in flat)
+                # the second pair is (sig, G) with exactly one of its factors negated; the first pair has none
+                second = [t for t in comps if any(_is(c, "sig") for c in t)]
                 neg = [c for c in flat if c.op == "call" and B.cname(c) == "Neg::neg"]
-                has_neg = len(neg) == 1
+                has_neg = len(neg) == 1 and has_gen and bool(second) and any(c in second[0] for c in neg)
                 ctx.ob("E5.equation", fk, has_hash and has_pk and has_sig and has_neg and len(comps) == 2, "pairing input = %s (want {(H(msg,dst), pk), (sig, -G)} with exactly one negated factor)" % show(strip_sites(T_), 6), where=where(f, b), sample={"pairs": show(strip_sites(T_), 6)})
         if fk.endswith("aggregate_verify"):
             # final push((sig, -G)) and per-entry push((hash(msg,dst), pk))
@@ -94,8 +101,10 @@ def run(ctx):
     check_tag_table(ctx, P)
     # 3. dispatch on the signature's own variant
     fns = [P.fns[k] for k in ("Signature<C>::verify", "MultiSignature<C>::verify", "PublicKeyShare<C>::verify", "AggregateSignature<C>::verify") if k in P.fns]
-    n_sites, _ = check_arm_purity(ctx, "E2-A", P, fns)
-    ctx.floor("E2-A", "dispatch switches in verifiers", n_sites, 4)
+    from .common import with_mappers, check_dispatching
+
+    check_arm_purity(ctx, "E2-A", P, with_mappers(P, fns))
+    check_dispatching(ctx, "E2-A", P, fns)
     for f in fns:
         ev = evaluate(f)
         for b, d in ev.switch.items():
